@@ -30,14 +30,23 @@ class Flow:
         self.throws |= o.throws
 
 
+class Throw:
+    """A transfer function may yield Throw(state): evaluation of the node raises, leaving `state`."""
+    __slots__ = ("state",)
+
+    def __init__(self, state):
+        self.state = state
+
+
 class AbsInt:
-    def __init__(self, transfer, refine=None, throws=None, max_iter=12, on_handler=None, on_try_exit=None):
+    def __init__(self, transfer, refine=None, throws=None, max_iter=12, on_handler=None, on_try_exit=None, on_return=None):
         self.transfer = transfer
         self.refine = refine or (lambda e, t, s: (s,))
         self.throws = throws or (lambda n, s: False)
         self.max_iter = max_iter
         self.on_handler = on_handler          # (handler, state) -> iterable of states at handler entry
         self.on_try_exit = on_try_exit
+        self.on_return = on_return            # (return node, state) -> state
         self.incomplete = False               # a loop did not reach its fixpoint within max_iter
 
     # ------------------------------------------------------------------ expressions
@@ -80,7 +89,10 @@ class AbsInt:
             if self.throws(e, s):
                 fl.throws.add(s)
             for s2 in self.transfer(e, s):
-                out.add(s2)
+                if isinstance(s2, Throw):
+                    fl.throws.add(s2.state)
+                else:
+                    out.add(s2)
         return out
 
     def cond(self, e, states, fl):
@@ -183,6 +195,8 @@ class AbsInt:
             return r
         elif k == "return":
             cur = self.eval(n.get("e"), set(states), fl)
+            if self.on_return:
+                cur = {self.on_return(n, s) for s in cur}
             fl.returns |= cur
         elif k == "break":
             fl.breaks |= set(states)
